@@ -208,6 +208,11 @@ class Environment(object):
             except AttributeError:
                 pass
             else:
-                self.conn.send_bytes(dumps(('close', (), {})))
-                self.conn.close()
+                conn = self.conn
                 del self.conn
+                try:
+                    conn.send_bytes(dumps(('close', (), {})))
+                except (OSError, EOFError):
+                    pass  # the server is gone already
+                finally:
+                    conn.close()
